@@ -1,7 +1,7 @@
 """Per-property plan: which engines run besides the contract/lemma obligations tagged with the property."""
 
 PLAN = {
-    'C01': dict(level='proof', engines=['sumlib', 'segnative', 'tasknative']),
+    'C01': dict(level='proof', engines=['sumlib', 'segnative', 'tasknative', 'beatstruct']),
     'C02': dict(level='proof', engines=['tasknative']),
     'C03': dict(level='proof', engines=['bundles']),
     'C04': dict(level='proof', engines=['keynative', 'matchnative']),
